@@ -324,6 +324,14 @@ structure PUpd where
   v    : Option String
 deriving DecidableEq, Repr
 
+/-- an extension package: variable classes (`add_variables_from_directory`) and a `parameters/`
+    directory whose top-level children are merged into the target's tree -/
+structure Ext where
+  name   : String
+  vars   : List ClassDef
+  params : ParamTree
+deriving DecidableEq, Repr
+
 /-- the modifications a derived system can receive -/
 inductive Mod where
   | add (c : ClassDef)
@@ -332,6 +340,7 @@ inductive Mod where
   | neutralize (name : String)
   | annualize (name : String)
   | params (us : List PUpd)
+  | loadExt (e : Ext)                 -- `load_extension(package)`, directly or from a reform's `apply()`
 deriving DecidableEq, Repr
 
 /-- `TaxBenefitSystem.get_variable(name)` (`check_existence=False`): the identity found -/
@@ -454,6 +463,56 @@ def modifyParams (h : Heap) (sid : Oid) (us : List PUpd) : Heap × Except String
         match applyUpds p us with
         | (p', r) => (h.put s.params (.par p'), r)
 
+/-- `add_variables_from_directory`: `add_variable` for each class in turn; the first conflict raises
+    (the classes already added stay) -/
+def addVariables (h : Heap) (sid : Oid) : List ClassDef → Heap × Except String Unit
+  | [] => (h, .ok ())
+  | c :: r =>
+    match loadVariable h sid c false with
+    | (h1, .ok ()) => addVariables h1 sid r
+    | (h1, .error e) => (h1, .error e)
+
+/-- `ParameterNode.merge`: `add_child` for each child of the extension's tree; an existing name
+    raises (the children already merged stay) -/
+def mergeParams : ParamTree → ParamTree → ParamTree × Except String Unit
+  | p, [] => (p, .ok ())
+  | p, (k, l) :: r =>
+    match dictGet k p with
+    | some _ => (p, .error "ValueError: has already a child named …")
+    | none => mergeParams (p ++ [(k, l)]) r
+
+/-- `TaxBenefitSystem.load_extension`: the variables, then the parameters (an extension without a
+    `parameters` directory merges nothing). A plain system merges them IN PLACE into the tree it
+    owns; a system with a baseline — a reform, which may share its tree with any system down its
+    baseline chain — first takes a deep copy of its tree (repair F-C14f) and merges into the copy. -/
+def loadExtension (h : Heap) (sid : Oid) (e : Ext) : Heap × Except String Unit :=
+  match addVariables h sid e.vars with
+  | (h1, .error er) => (h1, .error er)
+  | (h1, .ok ()) =>
+    match e.params with
+    | [] => (h1, .ok ())
+    | q :: qs =>
+      match h1.getSys sid with
+      | none => (h1, .error "not a system")
+      | some s =>
+        match h1.getPar s.params with
+        | none => (h1, .error "ill-formed system")
+        | some p =>
+          match s.baseline with
+          | some _ =>
+            match mergeParams p (q :: qs) with
+            | (p', r) => ((h1.allocs [.par p']).put sid (.sys { s with params := h1.next }), r)
+          | none =>
+            match mergeParams p (q :: qs) with
+            | (p', r) => (h1.put s.params (.par p'), r)
+
+def loadExtensions (h : Heap) (sid : Oid) : List Ext → Heap × Except String Unit
+  | [] => (h, .ok ())
+  | e :: r =>
+    match loadExtension h sid e with
+    | (h1, .ok ()) => loadExtensions h1 sid r
+    | (h1, .error er) => (h1, .error er)
+
 def applyMod (h : Heap) (sid : Oid) : Mod → Heap × Except String Unit
   | .add c => loadVariable h sid c false
   | .update c => loadVariable h sid c true
@@ -461,6 +520,7 @@ def applyMod (h : Heap) (sid : Oid) : Mod → Heap × Except String Unit
   | .neutralize n => neutralizeVar h sid n
   | .annualize n => annualizeVar h sid n
   | .params us => modifyParams h sid us
+  | .loadExt e => loadExtension h sid e
 
 /-- `apply()`: the modifications in order; the first exception aborts -/
 def applyMods (h : Heap) (sid : Oid) : List Mod → Heap × Except String Unit
@@ -494,59 +554,7 @@ def reformSys (h : Heap) (src : Oid) (mods : List Mod) : Heap × Except String O
     | (h2, .ok ()) => (h2, .ok sid)
     | (h2, .error e) => (h2, .error e)
 
-/-! ## Extensions and the YAML test runner's derivation -/
-
-/-- an extension package: variable classes (`add_variables_from_directory`) and a `parameters/`
-    directory whose top-level children are merged into the target's tree -/
-structure Ext where
-  name   : String
-  vars   : List ClassDef
-  params : ParamTree
-deriving Repr
-
-/-- `add_variables_from_directory`: `add_variable` for each class in turn; the first conflict raises
-    (the classes already added stay) -/
-def addVariables (h : Heap) (sid : Oid) : List ClassDef → Heap × Except String Unit
-  | [] => (h, .ok ())
-  | c :: r =>
-    match loadVariable h sid c false with
-    | (h1, .ok ()) => addVariables h1 sid r
-    | (h1, .error e) => (h1, .error e)
-
-/-- `ParameterNode.merge`: `add_child` for each child of the extension's tree; an existing name
-    raises (the children already merged stay) -/
-def mergeParams : ParamTree → ParamTree → ParamTree × Except String Unit
-  | p, [] => (p, .ok ())
-  | p, (k, l) :: r =>
-    match dictGet k p with
-    | some _ => (p, .error "ValueError: has already a child named …")
-    | none => mergeParams (p ++ [(k, l)]) r
-
-/-- `TaxBenefitSystem.load_extension`: the variables, then the parameters merged IN PLACE into
-    whatever tree object the system holds (an extension without a `parameters` directory merges
-    nothing) -/
-def loadExtension (h : Heap) (sid : Oid) (e : Ext) : Heap × Except String Unit :=
-  match addVariables h sid e.vars with
-  | (h1, .error er) => (h1, .error er)
-  | (h1, .ok ()) =>
-    match e.params with
-    | [] => (h1, .ok ())
-    | q :: qs =>
-      match h1.getSys sid with
-      | none => (h1, .error "not a system")
-      | some s =>
-        match h1.getPar s.params with
-        | none => (h1, .error "ill-formed system")
-        | some p =>
-          match mergeParams p (q :: qs) with
-          | (p', r) => (h1.put s.params (.par p'), r)
-
-def loadExtensions (h : Heap) (sid : Oid) : List Ext → Heap × Except String Unit
-  | [] => (h, .ok ())
-  | e :: r =>
-    match loadExtension h sid e with
-    | (h1, .ok ()) => loadExtensions h1 sid r
-    | (h1, .error er) => (h1, .error er)
+/-! ## The YAML test runner's derivation -/
 
 /-- `current = current.apply_reform(path)` for each reform in order -/
 def applyReforms (h : Heap) (cur : Oid) : List (List Mod) → Heap × Except String Oid
@@ -749,6 +757,7 @@ def Mod.touched : Mod → List String
   | .neutralize n => [n]
   | .annualize n => [n]
   | .params _ => []
+  | .loadExt e => e.vars.map (fun c => c.name)
 
 def Mod.isParams : Mod → Bool
   | .add _ => false
@@ -757,6 +766,7 @@ def Mod.isParams : Mod → Bool
   | .neutralize _ => false
   | .annualize _ => false
   | .params _ => true
+  | .loadExt e => !e.params.isEmpty
 
 /-- `TaxBenefitSystem(entities)`, a parameter tree, then `add_variable` for each class: the base
     systems of the correspondence. The entity objects handed to the constructor stay unbound; the
